@@ -155,11 +155,104 @@ def same_name_worker(task):
     return C.rec
 
 
+# ------------------------------------------------------------------------------------------------
+# a spec subclass RE-TYPES an inherited collection (bare re-annotation): the subclass's own element type applies on every route,
+# whatever was used first and however the classes were bootstrapped
+# ------------------------------------------------------------------------------------------------
+RETYPE_SRC = """
+@spec_class{deco}
+class Basket:
+    values: List[int] = []
+    table: Dict[str, int] = {{}}
+
+@spec_class{deco}
+class NamedBasket(Basket):
+    values: List[str]
+    table: Dict[str, str]
+"""
+RETYPE_FIRST_USES = {
+    "none": lambda ns: None,
+    "base_element_helper": lambda ns: (ns["Basket"]().with_value(1), ns["Basket"]().with_table_item("k", 1)),
+    "base_instance": lambda ns: ns["Basket"](values=[1]),
+    "sub_metadata": lambda ns: ns["NamedBasket"].__spec_class__,
+}
+RETYPE_PROBES = [
+    # (label, call, conforming?)
+    ("with_value(5)", lambda o, ip: o.with_value(5, _inplace=ip), False),
+    ("with_value('a')", lambda o, ip: o.with_value("a", _inplace=ip), True),
+    ("with_values([5])", lambda o, ip: o.with_values([5], _inplace=ip), False),
+    ("update_value(0, 5)", lambda o, ip: o.with_value("a", _inplace=ip).update_value(0, 5, _inplace=ip), False),
+    ("transform_value(0, len)", lambda o, ip: o.with_value("a", _inplace=ip).transform_value(0, len, _inplace=ip), False),
+    ("with_table_item('k', 5)", lambda o, ip: o.with_table_item("k", 5, _inplace=ip), False),
+    ("with_table_item('k', 'v')", lambda o, ip: o.with_table_item("k", "v", _inplace=ip), True),
+    ("constructor values=[5]", lambda o, ip: type(o)(values=[5]), False),
+]
+
+
+def retype_case(eager, first_use):
+    import typing
+
+    from spec_classes import spec_class
+
+    ns = {"spec_class": spec_class, "List": typing.List, "Dict": typing.Dict}
+    exec(compile(RETYPE_SRC.format(deco="(bootstrap=True)" if eager else ""), "<c03-retype>", "exec", dont_inherit=True), ns)
+    try:
+        RETYPE_FIRST_USES[first_use](ns)
+    except Exception:
+        pass
+    probs = []
+    for label, call, conforming in RETYPE_PROBES:
+        for ip in (False, True):
+            o = ns["NamedBasket"]()
+            try:
+                r = call(o, ip)
+            except (TypeError, ValueError):
+                if conforming:
+                    probs.append(f"conforming {label} refused (_inplace={ip})")
+                continue
+            except Exception as e:
+                probs.append(f"{label} raised {type(e).__name__} (_inplace={ip})")
+                continue
+            bad = [v for v in getattr(r, "values", []) if not isinstance(v, str)] + [v for v in getattr(r, "table", {}).values() if not isinstance(v, str)]
+            if bad:
+                probs.append(f"{label} stored {bad!r} in a collection of str (_inplace={ip})")
+    return probs
+
+
+def retype_worker(task):
+    from mc.common import Counter, violation
+
+    C = Counter()
+    for eager in (False, True):
+        for first_use in RETYPE_FIRST_USES:
+            probs = retype_case(eager, first_use)
+            C.inc("states")
+            C.inc("transitions", 2 * len(RETYPE_PROBES))
+            C.inc("evaluations")
+            case = {"part": "retype", "eager": eager, "first_use": first_use}
+            if probs:
+                C.viol(violation(PROP, {"part": "retype", "kind": "element_type_of_the_parent_applied", "eager": eager, "first_use": first_use},
+                                 {"problems": probs[:3]}, case))
+            else:
+                C.inc("traces_validated_against_impl")
+                C.nontrivial(("retype", eager, first_use))
+    C.sample({"part": "retype", "first_uses": list(RETYPE_FIRST_USES), "probes": [p[0] for p in RETYPE_PROBES]})
+    return C.rec
+
+
 def dispatch(task):
+    if task.get("part") == "retype":
+        return retype_worker(task)
     return same_name_worker(task) if task.get("part") == "same_name" else explore.explore_class(task)
 
 
 def run_case(case):
+    if case.get("part") == "retype":
+        from mc.common import violation
+
+        probs = retype_case(case["eager"], case["first_use"])
+        return [violation(PROP, {"part": "retype", "kind": "element_type_of_the_parent_applied", "eager": case["eager"], "first_use": case["first_use"]},
+                          {"problems": probs[:3]}, case)] if probs else []
     if case.get("part") == "same_name":
         from mc.common import violation
 
@@ -174,6 +267,7 @@ def main(run):
 
     tasks = tasks_for(run, "props.c03", PROP)
     tasks.append({"part": "same_name"})
+    tasks.append({"part": "retype"})
     for rec in pmap(dispatch, tasks):
         run.merge(rec)
     run.add(rule=(
